@@ -198,7 +198,7 @@ def primLine (parts : List String) : String :=
   | some e =>
     let kind := arg 2
     match kind with
-    | "hash" | "hmac" | "hkdf" | "hmacseq" =>
+    | "hash" | "hmac" | "hkdf" | "hmacseq" | "hashseq" =>
       (match provides e "hash" (arg 3) with
        | none => "none"
        | some b0 =>
@@ -206,6 +206,12 @@ def primLine (parts : List String) : String :=
          let h := Real.hashImpl b (hashSel (arg 3))
          let S := Real.mkSuite (Real.dhImpl .toy 0) .toy (Real.cipherImpl .toy 0) h
          if kind == "hash" then s!"ok {hex (h.hash (unhex (arg 4)))}"
+         else if kind == "hashseq" then
+           -- pending input on the implementation's hash object is discarded by reset() and invisible to hmac / hkdf
+           let data := unhex (arg 5)
+           let key := unhex (arg 6)
+           let o := hkdf3 S (key.take h.hashLen) data
+           s!"ok {hex (h.hash data)} {hex (hmac S key data)} {hex o.1} {hex o.2.1}"
          else if kind == "hmacseq" then
            -- several HMACs on ONE hash object of the implementation: the function has no memory
            let outs := ((arg 4).splitOn ",").map fun kd =>
